@@ -14,7 +14,7 @@ func init() {
 		ID: "C17",
 		Explanation: "Who-may-call, provenance and validator rules for plugin execution: (R17.1) process creation (exec.Command*, os.StartProcess, syscall.Exec/ForkExec) occurs in non-test module code at exactly one site, plugin.openClientConnection; (R17.2) on the path where the test hook is empty its program argument is \"age-plugin-\"+name, resolved by execabs/os-exec PATH lookup, and the hook is never assigned by production code; " +
 			"(R17.3) openClientConnection is called only with the name field of a plugin.Recipient/Identity, and every store to those fields takes its value from ParseRecipient/ParseIdentity under err==nil, from a parameter validated by EncodeIdentity(name,·)!=\"\" or validPluginName, or from the name field of another such value; " +
-			"(R17.4) validPluginName rejects the empty string and any rune outside its allow-list constant, which equals the specification's set (letters, digits, + - . _; no path separator); (R17.5) only cmd/age imports the plugin package and the constructors are called only from its flag/argument/file-line parsers, so nothing derived from a file header constructs a plugin.",
+			"(R17.4) validPluginName rejects the empty string and any rune outside its allow-list constant, which equals the specification's set (letters, digits, + - . _; no path separator); (R17.5) only cmd/age imports the plugin package and the constructors are called only from its flag/argument/file-line parsers, so nothing derived from a file header constructs a plugin. (R17.6) cmd/age hands the -j value itself to plugin.NewIdentityWithoutData.",
 		NotDecided:  "what exec PATH lookup does on a given system; the behaviour of the plugin binary.",
 		Assumptions: []string{"golang.org/x/sys/execabs (or os/exec of Go >= 1.19) refuses results relative to the current directory"},
 		Technique:   "static analysis: who-may-call over the module call graph, per-path term of the exec argument, field-store provenance with dominance guards, validator constant compared with the specification set",
